@@ -5,10 +5,16 @@
    limits under the union / nested rules (spec/MC_PolygonSet.tla).  In every state it checks the
    transcription of PolyElem::inside / Polygons::inside (spec/Polygon.tla) against the exact
    geometric truth / the documented rule, and emits the case with the expected answers.
+   spec/MC_PolygonHull.tla: all non-collinear lattice point sets; the hull polygon (monotone chain in
+   integers) is checked to be THE hull and to decide like the half-plane definition; expected marks
+   of the selection by convex hull for targets without / with a previous selection.
 2. harness poly_run executes every emitted case on the real objects (PolyElem, Polygons::inside,
    db_polygon on a Db made of the query points, with / without previous selection, 2-D and 3-D),
    on exact-truth-preserving images (integer affine maps, translations up to 1e6, scalings by
-   2^k, 1/3, 1/7) and on every start vertex / direction of the vertex list.
+   2^k, 1/3, 1/7) and on every start vertex / direction of the vertex list; hull cases through
+   Polygons::createFromDb(..)->inside, db_selhull and Db::addSelectionFromDbByConvexHull (source =
+   the set, or the lattice with the set as active samples, in several sample orders; target = the
+   query points without selection and with a scattered / leading / trailing mask).
 3. every answer of the library is compared with the answer expected by the specification
    (query points on a boundary are excluded, as in the property).
 """
@@ -52,7 +58,7 @@ class CaseStore:
             f.write(line)
 
     def add(self, rec, lvl):
-        key = json.dumps([rec.get("v"), rec.get("e"), rec.get("fac"), rec.get("kind")], separators=(",", ":"))
+        key = json.dumps([rec.get("v"), rec.get("e"), rec.get("fac"), rec.get("kind"), rec.get("src")], separators=(",", ":"))
         if key in self.seen:
             return False
         self.seen.add(key)
@@ -74,6 +80,12 @@ class CaseStore:
                     keep[t] = rec[t]
             keep["nv"] = len(rec["v"])
             keep["hasq"] = "q" in rec
+        elif rec["k"] == "hull":
+            keep["src"] = rec["src"]
+            keep["exp"] = "".join(map(str, rec["exp"]))
+            keep["sel"] = ["".join(map(str, x)) for x in rec["sel"]]
+            for t in ("nv", "onedge", "interior"):
+                keep[t] = rec[t]
         else:
             keep["e"] = rec["e"]
             keep["var"] = [{"z": v["z"], "nested": v["nested"], "a": "".join(map(str, v["a"])),
@@ -91,7 +103,7 @@ def run_tlc_cases(work, store, module, cfg_text, tag, lvl, simulate=None, depth=
     cfgp = os.path.join(work, "%s.cfg" % tag)
     with open(cfgp, "w") as f:
         f.write(cfg_text)
-    counts = {"poly": 0, "set": 0, "skip": 0, "dup": 0}
+    counts = {"poly": 0, "set": 0, "hull": 0, "skip": 0, "dup": 0}
 
     def on_emit(r):
         k = r.get("k")
@@ -100,7 +112,7 @@ def run_tlc_cases(work, store, module, cfg_text, tag, lvl, simulate=None, depth=
                 store.set_meta(r)
         elif k == "skip":
             counts["skip"] += 1
-        elif k in ("poly", "set"):
+        elif k in ("poly", "set", "hull"):
             if store.add(r, lvl):
                 counts[k] += 1
             else:
@@ -253,6 +265,14 @@ def compare(ck, store, outs, crashes):
                     # open vertex list whose extent is below the absolute closure tolerance (1e-5) of PolyElem
                     judge(cid, keep, keep["exp"], r["obstiny"], "inside(open input, extent < 1e-5)",
                           other_cause="open-input-below-closure-tolerance")
+            elif keep["k"] == "hull":
+                judge(cid, keep, keep["exp"], r["obs"], "convex hull: createFromDb.inside / selection of a target without selection")
+                if "obstiny" in r:
+                    # point set whose triangles have a doubled area below the absolute collinearity tolerance (1e-6)
+                    judge(cid, keep, keep["exp"], r["obstiny"], "convex hull of a point set of extent < 1e-3",
+                          other_cause="hull-below-collinearity-tolerance")
+                for m, ents in enumerate(r["obsmask"]):
+                    judge(cid, keep, keep["sel"][m], ents, "convex hull: selection of a target with %s selection" % meta["masks"][m]["name"])
             else:
                 v = keep["var"][r["var"]]
                 judge(cid, keep, v["a"], r["obs"], "inside", {"z": v["z"], "nested": v["nested"]})
@@ -291,6 +311,16 @@ def categories(ck, store):
             inc("points_level_with_horizontal_edge", keep["lh"])
             if "sel" in keep:
                 inc("polygons_with_db_polygon_flag_sel")
+        elif keep["k"] == "hull":
+            inc("hulls")
+            inc("hulls_%s" % ("triangle" if keep["nv"] == 3 else "4+_vertices"))
+            if keep["onedge"]:
+                inc("hulls_with_points_on_an_edge")
+            if keep["interior"]:
+                inc("hulls_with_interior_points")
+            inc("hull_points_inside", keep["exp"].count("1"))
+            inc("hull_points_outside", keep["exp"].count("0"))
+            inc("hull_points_on_boundary_excluded", keep["exp"].count("2"))
         else:
             ne = len(keep["e"])
             inc("sets_%d_elements" % ne)
@@ -313,7 +343,10 @@ def require(ck, names):
 def sample_cases(ck, store, n=2):
     for cid in list(store.cases)[:: max(1, len(store.cases) // n)][:n]:
         keep = store.cases[cid]
-        if keep["k"] == "poly":
+        if keep["k"] == "hull":
+            ck.sample({"hull_of_points_doubled_coordinates": keep["src"],
+                       "expected_per_query_point (0 out,1 in,2 boundary), same marks whatever the previous selection of the target": keep["exp"]})
+        elif keep["k"] == "poly":
             ck.sample({"polygon_vertices_doubled_coordinates": keep["v"], "n_vertices": keep["nv"],
                        "expected_per_query_point (0 out,1 in,2 boundary)": keep["exp"]})
         else:
@@ -339,6 +372,14 @@ CONSTANTS
   MaxElems = %(maxelems)d
   MinEmit = %(minemit)d
 INVARIANT Inv_SetRules Inv_Emit
+CHECK_DEADLOCK FALSE
+"""
+HULL_CFG = """SPECIFICATION Spec
+CONSTANTS
+  G = %(G)d
+  MaxPts = %(maxpts)d
+  MinPts = %(minpts)d
+INVARIANT Inv_Hull
 CHECK_DEADLOCK FALSE
 """
 BIG_CFG = """SPECIFICATION Spec
@@ -382,12 +423,12 @@ def run_all(ck, specs):
                 m = re.findall(r"number of states generated: ([\d,]+)", res.stdout)
                 if m:
                     nstates = res.generated = int(m[-1].replace(",", ""))
-            log("[C20] %s (%s): %d states, %d polygons, %d sets, %d refinements skipped (not simple), TLC %.1fs, harness %.1fs" %
-                (tag, module, nstates, counts["poly"], counts["set"], counts["skip"], res.wall, r["hwall"]))
+            log("[C20] %s (%s): %d states, %d polygons, %d sets, %d hulls, %d refinements skipped (not simple), TLC %.1fs, harness %.1fs" %
+                (tag, module, nstates, counts["poly"], counts["set"], counts["hull"], counts["skip"], res.wall, r["hwall"]))
             ck.add("states", nstates)
             ck.add("transitions", res.generated)
             ck.cov.setdefault("tlc_runs", []).append({"run": tag, "module": module, "states": nstates,
-                                                      "cases": counts["poly"] + counts["set"], "tlc_wall_s": round(res.wall, 1),
+                                                      "cases": counts["poly"] + counts["set"] + counts["hull"], "tlc_wall_s": round(res.wall, 1),
                                                       "harness_wall_s": round(r["hwall"], 1), "harness_level": lvl,
                                                       "simulate": kw.get("simulate", 0)})
             ck.add("refinements_not_simple_skipped", counts["skip"])
@@ -424,7 +465,8 @@ def run(tier):
             ("MC_PolygonBig", BIG_CFG % dict(G=3, maxv=3, kinds=kinds2, ks="3", inv="Inv_Big Inv_SubSimple"),
              "refined_3x3_tri_k3", "lite", {}),
             ("MC_PolygonSet", SET_CFG % dict(G=3, pool="rect", poolmaxv=4, maxelems=3, minemit=3),
-             "sets_3x3_rect_3_simulated", "one", dict(simulate=400, depth=4, nworkers=1))]
+             "sets_3x3_rect_3_simulated", "one", dict(simulate=400, depth=4, nworkers=1)),
+            ("MC_PolygonHull", HULL_CFG % dict(G=3, maxpts=9, minpts=3), "hulls_3x3_all_subsets", "full", {})]
     else:
         specs = [
             ("MC_Polygon", POLY_CFG % dict(G=4, maxv=6, minemit=6, emitsel="FALSE", canon="TRUE", inv="Inv_Agree Inv_Closed"),
@@ -444,7 +486,11 @@ def run(tier):
             ("MC_PolygonSet", SET_CFG % dict(G=3, pool="all", poolmaxv=4, maxelems=3, minemit=1),
              "sets_3x3_allpolygons_le3_simulated", "lite", dict(simulate=1500, depth=4, nworkers=1)),
             ("MC_PolygonBig", BIG_CFG % dict(G=4, maxv=4, kinds='"sub"', ks="100", inv="Inv_Big"),
-             "subdivided_4x4_le4_k100_simulated", "one", dict(simulate=60, depth=6, nworkers=1))]
+             "subdivided_4x4_le4_k100_simulated", "one", dict(simulate=60, depth=6, nworkers=1)),
+            ("MC_PolygonHull", HULL_CFG % dict(G=3, maxpts=9, minpts=3), "hulls_3x3_all_subsets", "full", {}),
+            ("MC_PolygonHull", HULL_CFG % dict(G=4, maxpts=5, minpts=3), "hulls_4x4_le5_points", "lite", {}),
+            ("MC_PolygonHull", HULL_CFG % dict(G=5, maxpts=12, minpts=6), "hulls_5x5_6to12_points_simulated", "lite",
+             dict(simulate=1500, depth=13, nworkers=1))]
     run_all(ck, specs)
     require(ck, ["polygons_ccw", "polygons_cw", "polygons_convex", "polygons_nonconvex", "polygons_with_collinear_vertex",
                  "polygons_100+_vertices", "points_inside", "points_outside", "points_level_with_vertex",
@@ -453,8 +499,9 @@ def run(tier):
                  "set_points_union_2d_inside", "set_points_nested_2d_inside", "set_points_union_3d_inside",
                  "set_points_nested_3d_inside", "set_points_union_3d_inside_early_return_applies",
                  "set_points_nested_3d_inside_early_return_applies", "set_points_nested_2d_outside"] +
-            ["sets_3_elements"])
-    ck.cov["distinct_nontrivial"] = ck.cov["categories"]["polygons"] + sum(
+            ["sets_3_elements", "hulls_triangle", "hulls_4+_vertices", "hulls_with_points_on_an_edge",
+             "hulls_with_interior_points", "hull_points_inside", "hull_points_outside"])
+    ck.cov["distinct_nontrivial"] = ck.cov["categories"]["polygons"] + ck.cov["categories"]["hulls"] + sum(
         v for k, v in ck.cov["categories"].items() if k.startswith("sets_"))
     ck.cov["rule"] = ("every case emitted by TLC (simple lattice polygon / refined polygon / polygon set with vertical limits, "
                       "with the answers expected by Polygon.tla for every half-lattice query point) executed on the real "
@@ -466,5 +513,6 @@ def run(tier):
         "distance >= 1/(4 * edge length) lattice units from every edge (exact integer cross product >= 1 in doubled coordinates)",
         "PolyElem::inside is called directly on closed vertex lists only (it does not close the list itself; "
         "Polygons::inside does, through getClosedPolyElem)",
-        "flag_period of db_polygon (longitude wrapping) and Polygons::createFromDb (convex hull) are not exercised"]
+        "flag_period of db_polygon (longitude wrapping) is not exercised; convex hulls only with dilate = 0 (the dilated hull is the "
+        "hull of 16-gons around the vertices: its documented meaning 'radius' is not exact) and only for point sets not contained in a line"]
     return ck.finish()
